@@ -9,7 +9,7 @@ PROPS = {
                 explanation="factor value law v' = v*scale(src)/scale(dst), apply_conversion, Rational::pow, prefix constants, conversion laws as lemmas; OP_CAST arm bounded"),
     "C04": dict(units=["COMPOUND", "EVALOPS"], standin=True, level="proof",
                 explanation="Compound::mul / reconstruct / inner_match / pow preserve (value*scale, dims); eval::{mul,div,pow}; bases_match assumed (FnMut closure through Iterator::all)"),
-    "C05": dict(units=["TABLES", "COMPOUND"], standin=False, level="proof",
+    "C05": dict(units=["TABLES", "COMPOUND"], standin=True, level="proof",
                 explanation="dimension closure and conversion fraction of each of the 78 derived units and the 21 prefix constants against standards.toml"),
     "C10": dict(units=["RAT", "EVALOPS"], standin=True, level="proof",
                 explanation="Rational::{floor,ceil,round}, builtin::{one,floor,ceil,round} against floor/ceil/half-away-from-zero definitions; FN_CALL arm bounded"),
